@@ -71,7 +71,8 @@ def main():
             res['suite_tail'] = out[-300:]
             m = re.search(r'(\d+) passed', out)
             res['suite_passed'] = int(m.group(1)) if m else None
-            res['suite_failed'] = bool(re.search(r'\d+ failed|error', out))
+            last = [l for l in out.strip().splitlines() if ' passed' in l or ' failed' in l or ' error' in l][-1:] or ['']
+            res['suite_failed'] = bool(re.search(r'\d+ failed|\d+ errors?\b', last[0]))   # the pytest summary line only (warnings may contain the word 'error')
         # checks
         vcopy = os.path.join(work, 'verif')
         sh(f'rsync -a --exclude .git --exclude replays --exclude "coq/Cases/*" {VERIF}/ {vcopy}/')
